@@ -200,6 +200,11 @@ def thorough(pid: str, model, rep: Report, args) -> None:
         st["seeded_ran" if seed else "twins_ran"] += 1
         if r["ok"]:
             st["seeded_caught" if seed else "twins_silent"] += 1
+        elif seed and r.get("exit") == 2:
+            # a stored property-breaking change on which the check ends WITHOUT A VERDICT (exit 2 naming the routine): not a silent pass -- the
+            # rule is not blind -- but not a detection either; recorded (evidence, DESIGN.md appendix), it does not change this run's verdict
+            st.setdefault("seeds_no_verdict", []).append(r["name"])
+            print(f"SELFTEST-NOTE property={pid} no verdict (analysis incomplete) on stored seeded change {r['name']}")
         elif seed or r["kind"] == "mechanical-twin":
             # a confirmed property-breaking change that is no longer reported, or a purely mechanical re-emission of the tree that changes a verdict:
             # the rule has gone blind / depends on layout -- the run is not a verdict
